@@ -12,6 +12,8 @@ E-deg units-of-measure interpreter (sa/deg.py) with base symbol lam (rho:3, sigm
              normaliser built by get_reasonable_normalizer() == 0
  ueg-deg     ueg_vector(rho) entries scale as rho**(usp/3) for every spec branch (VI/VJ/VIJ/VK, FracLapl
              symbolic in s, SDMX*, semilocal)
+ sdmx-deg    SADMPlan/SDMXPlan/SDMXFullPlan/SDMXIntPlan: abstract run of the constructor (alpha ~ lambda^2) and of
+             get_features (projections lambda^3, lambda^4): each feature row has the power its settings declare
  base-deg    exchange baselines (_lda_x/_pbe_x/_chachiyo_x/_vi_x_damp helpers): e has degree 4, de/drho 1
 Not decided: scaling of the nonlocal integrals computed in C, E_x[n_lambda] = lambda E_x[n] end to end.
 """
@@ -478,6 +480,80 @@ def rule_baselines(chk, cx):
 
 
 # ----------------------------------------------------------------------------
+def sdmx_plan_configs(cx):
+    """plan class -> [(label, settings thunk)]: the settings classes each SDMX-like plan is built from.
+    SDMXIntPlan documents (but does not enforce) ratio-1 settings only; it is analysed on one ratio."""
+    s = cx.s
+    pows = lambda: lst(num(0), num(1), num(2))  # noqa: E731
+    full = lambda: deg.Map({deg.Fraction(1): Tup([pows(), lst(num(3), num(2), num(2), num(1))]),  # noqa: E731
+                            deg.Fraction(2): Tup([pows(), lst(num(2), num(1), num(1), num(2))])})
+    one = lambda: deg.Map({deg.Fraction(1): Tup([pows(), lst(num(3), num(2), num(2), num(1))])})  # noqa: E731
+    return {
+        "SADMPlan": [("SADMSettings(smooth)", lambda: s.new(ST, "SADMSettings", K("smooth")))],
+        "SDMXPlan": [("SDMXSettings", lambda: s.new(ST, "SDMXSettings", pows())),
+                     ("SDMXGSettings", lambda: s.new(ST, "SDMXGSettings", pows(), num(2))),
+                     ("SDMX1Settings", lambda: s.new(ST, "SDMX1Settings", pows(), num(2))),
+                     ("SDMXG1Settings", lambda: s.new(ST, "SDMXG1Settings", pows(), num(2), num(1)))],
+        "SDMXFullPlan": [("SDMXFullSettings(ratios 1,2; kinds 0,d,1,1d)", lambda: s.new(ST, "SDMXFullSettings", full()))],
+        "SDMXIntPlan": [("SDMXFullSettings(ratio 1)", lambda: s.new(ST, "SDMXFullSettings", one()))],
+    }
+
+
+def rule_sdmx_plans(chk, cx):
+    """Abstractly run the constructor of every SDMX-like plan (auxiliary exponents alpha ~ lambda^2) and its
+    get_features on projections typed lambda^3 (l=0) / lambda^4 (gradient): every feature row must have the
+    power the matching settings class declares.  Decides which integral generator / weight each (l, r d/dr)
+    term kind selects, through dispatch tables, helpers and branches alike."""
+    s = cx.s
+    prog = s.prog
+    plan_classes = []
+    for m, c in prog.all_classes():
+        if m.rel != PL:
+            continue
+        r = prog.find_method(m, c, "get_features")
+        has_init = "__init__" in deg.pf.methods(c)
+        if r is not None and has_init:
+            plan_classes.append(c.name)
+    table = sdmx_plan_configs(cx)
+    missing = [c for c in plan_classes if c not in table]
+    if missing or len(plan_classes) < 4:
+        raise core.AnalysisError("SDMX-like plan classes %s have no settings configuration in the checker "
+                                 "(known: %s)" % (missing, sorted(table)))
+    for cname in plan_classes:
+        for label, make in table[cname]:
+            st = make()
+            where = "%s(%s)" % (cname, label)
+            decl = declared_list(s.call(st, "get_feat_usps").value, label + ".get_feat_usps")
+            eng = s.eng
+            m0, u0 = len(eng.mismatches), len(eng.unknowns)
+            plan = s.new(PL, cname, st, sym("nspin"), lam(2), sym("lambd"), sym("nalpha"))
+            ctor = deg.Result(plan, None, eng.mismatches[m0:], eng.unknowns[u0:], [])
+            cx.flush("sdmx-deg", ctor, where + ".__init__")
+            if not isinstance(plan, Obj):
+                raise core.AnalysisError("%s: constructor could not be interpreted" % where)
+            p = deg.rows(0, {0: lam(3), 1: lam(4), 2: lam(4), 3: lam(4)})
+            res = s.call(plan, "get_features", [p], {"out": K(None), "l0tmp": Q(ANY), "l1tmp": Q(ANY)})
+            cx.flush("sdmx-deg", res, where + ".get_features")
+            out = res.value
+            gf = s.hooks.method_of(plan, "get_features").fdef
+            init = s.hooks.method_of(plan, "__init__").fdef
+            if not (isinstance(out, Q) and out.is_rows and out.axis == 0):
+                if not (res.mismatches or ctor.mismatches):
+                    raise core.AnalysisError("%s.get_features: result is not row-typed (%s)" % (where, fmt(out)))
+                continue
+            if set(out.rows) != set(range(len(decl))):
+                chk.violation("sdmx-deg", PL, cname + ".get_features", "rows written by %s" % where, gf.lineno,
+                              "%s writes feature rows %s but its settings declare %d features" % (
+                                  where, sorted(out.rows), len(decl)))
+                continue
+            for i, d in enumerate(decl):
+                cx.expect("sdmx-deg", res, where, out.rows[i], d, "feature %d" % i, PL, cname + ".__init__",
+                          "feature %d of %s" % (i, where), init.lineno)
+    chk.count("SDMX-like plan classes", len(plan_classes))
+    chk.floor("sdmx-deg", 30, "feature rows of SADM/SDMX/SDMXFull/SDMXInt plans over their settings classes")
+
+
+# ----------------------------------------------------------------------------
 def _analyse_own(chk):
     chk.rule("exp-deg", "length-scale exponents scale as lambda^2; derivative degrees 2-3, 2-8, 2-5")
     chk.rule("sl-deg", "regularised semilocal features and the rows of the semilocal plan have the declared powers")
@@ -485,6 +561,7 @@ def _analyse_own(chk):
     chk.rule("reasonable", "declared usp + usp of the recommended normaliser == 0")
     chk.rule("ueg-deg", "ueg_vector entries scale as rho^(usp/3)")
     chk.rule("base-deg", "exchange baselines have degree 4 (energy density) and 1 (d/drho)")
+    chk.rule("sdmx-deg", "SDMX-like plans: constructor-built fit matrices / weights give every feature row its declared power")
     cx = Ctx(chk)
     chk.guard(rule_exponent, cx)
     chk.guard(rule_semilocal, cx)
@@ -492,6 +569,7 @@ def _analyse_own(chk):
     chk.guard(rule_settings, cx)
     chk.guard(rule_semilocal_ueg, cx)
     chk.guard(rule_baselines, cx)
+    chk.guard(rule_sdmx_plans, cx)
     eng = cx.s.eng
     chk.count("equal-degree obligations decided inside formulas", eng.checks)
     chk.count("branch-join alternatives", len(eng.conflicts))
@@ -505,6 +583,8 @@ def _analyse_own(chk):
         "literal 0, np.zeros*, literals <= 1e-6 and the clamp symbols rhocut/cutoff/ALPHA_TOL are degree-polymorphic",
         "the degree of the C-computed nonlocal integrals is the one SPEC_USPS declares (not analysed)",
         "inputs of the exchange-baseline helpers other than the density row are scale-invariant features",
+        "SDMX projections p_vag scale as lambda^3 (l=0 row) and lambda^4 (gradient rows); the auxiliary exponents "
+        "alpha0 as lambda^2; lambd, nalpha, nspin dimensionless",
     ]
     chk.not_decided += ["scaling of the nonlocal integrals evaluated in C",
                         "end-to-end E_x[n_lambda] = lambda E_x[n]",
@@ -551,6 +631,21 @@ def mutants(tree):
                "exp_pow = 0.5 * (1.0 - usps[i])", expect="reasonable"),
         Mutant("SDMX ueg rho**(1+n/3) -> rho**(n/3)", ST, "return [u * rho ** (1 + n / 3.0) for u, n in zip(self.ueg_const, self.pows)]\n",
                "return [u * rho ** (n / 3.0) for u, n in zip(self.ueg_const, self.pows)]\n", expect="ueg-deg"),
+        Mutant("SDMXFull l=1 rdr term built from the l=0 d integral", PL,
+               "num * _get_int_1d(n, prod, isum)\n                        + 0.25 * _get_int_1d(n, prod, asum)\n                        + 0.25 * _get_int_1d(n, prod, bsum)",
+               "num * _get_int_d(n, prod, isum)\n                        + 0.25 * _get_int_d(n, prod, asum)\n                        + 0.25 * _get_int_d(n, prod, bsum)",
+               expect="sdmx-deg"),
+        Mutant("_get_int_1d denominator power 9-n -> 7-n", PL, "/ asum ** (0.5 * (9 - n))", "/ asum ** (0.5 * (7 - n))",
+               expect="sdmx-deg"),
+        Mutant("SDMXPlan l=1 coulomb list uses the l=0 power", PL,
+               "/ sum ** (0.5 * (5 - n))\n                * gamma(0.5 * (5 - n))\n                for n in settings.pows[:n1t]",
+               "/ sum ** (0.5 * (3 - n))\n                * gamma(0.5 * (5 - n))\n                for n in settings.pows[:n1t]",
+               expect="sdmx-deg"),
+        Mutant("SDMXIntPlan l=1 weights use n instead of n-2", PL, "all_n.append(n - 2)", "all_n.append(n)", expect="sdmx-deg"),
+        Mutant("SADMPlan fit: vals not normalised", PL, "            vals *= self.alpha_norms[None, :]\n            self.fit_matrix = np.linalg.solve(vals.T, LJ).T",
+               "            self.fit_matrix = np.linalg.solve(vals.T, LJ).T", expect="sdmx-deg"),
+        Mutant("SDMXFull declares 3+n -> 5+n for l=1 terms", ST, "            for n, rdr in self.iterate_l1_terms(ratio):\n                usps.append(3 + n)",
+               "            for n, rdr in self.iterate_l1_terms(ratio):\n                usps.append(5 + n)", expect="sdmx-deg"),
         Mutant("LDA exchange rho^(4/3) -> rho^(1/3)", BL, "e[:] += LDA_FACTOR * rho ** (4.0 / 3)\n",
                "e[:] += LDA_FACTOR * rho ** (1.0 / 3)\n", expect="base-deg"),
         Mutant("PBE dedx[1] loses rho^(4/3)", BL, "dedx[1] += LDA_FACTOR * rho ** (4.0 / 3) * dfx",
